@@ -8,7 +8,9 @@ import os
 
 from . import gen as G, harness as H, loader, spec as S
 
-NAME_POOL = ["A", "B", "C", "D", "E", "F", "G1", "H2", "V3", "W4"]
+# names and rail names are drawn from one pool; several are fragments of one another ("V" in "V3" in "3V3" in "3V3_SW")
+# because a name is an identifier, never a pattern
+NAME_POOL = ["A", "A1", "A12", "B", "B sw", "C", "D", "V", "V3", "3V3", "3V3_SW", "G1", "H2", "W4"]
 KINDS_NONSRC = ["PLoad", "ILoad", "RLoad", "RLoss", "VLoss", "Converter", "LinReg", "PSwitch", "PMux", "Rectifier"]
 
 
